@@ -9,7 +9,11 @@ the digits need.  `CnlModel.Elastic.binOp` / `neg` model built-in storage only a
 of the result tag), and the value is the exact mathematical result — **that the multi-word storage computes it
 exactly is property C10's theorem** (`CnlProperties/C10.lean`: `wide_integer` arithmetic is arithmetic modulo
 `2^bits`, and the policy's digits fit the storage); this model takes it as the definition.  Validated against the
-real code by the `xbin` / `xneg` lines of the `C05` correspondence table.  Lean core only.
+real code by the `xbin` / `xneg` / `xident` lines of the `C05` correspondence table (`/` and `%`: divisors of 1, 2,
+3, … limbs of 8/16/32/64 bits, every sign combination, dividend smaller than / equal to / a multiple of the divisor,
+operands that take step D6 "add back" of Knuth's algorithm D).  A zero divisor in multi-word storage is outside the
+property (the vendored routine returns its maximum value instead of trapping); it is not modelled and the harness
+does not send it.  Lean core only.
 -/
 namespace Cnl.Elastic
 open Cnl
@@ -30,6 +34,17 @@ def xBin (op : BinOp) (x y : ENum) : Res ENum :=
      | some (d, sg) => .ok ⟨d, ⟨max x.narrowest.bits y.narrowest.bits, sg⟩, exactBin op x.value y.value⟩
      | none => .ill "no policy")
   | r => r
+
+/-- `(x / y) * y + x % y`, each operator applied to the elastic result of the one before (the `xident` lines of the
+correspondence table) -/
+def xDivModIdentity (x y : ENum) : Res ENum :=
+  match xBin .div x y, xBin .mod x y with
+  | .ok q, .ok m =>
+    (match xBin .mul q y with
+     | .ok p => xBin .add p m
+     | e => e)
+  | .ok _, e => e
+  | e, _ => e
 
 /-- unary minus, multi-word results included -/
 def xNeg (x : ENum) : Res ENum :=
